@@ -111,8 +111,67 @@ def expression(tier):
     ])
 
 
-def is_violation_of(query, tag):
-    return lambda v: v.detail is not None and v.detail.get("query") == query and v.detail.get("tag", tag) == tag
+# ------------------------------------------------------------------------------------------ known findings
+def _walk(d):
+    if isinstance(d, list) and d:
+        if isinstance(d[0], str):
+            yield d
+        for x in (d[1:] if isinstance(d[0], str) else d):
+            if isinstance(x, list):
+                yield from _walk(x)
+
+
+def _nonreal_number(d):
+    return d[0] in ("Complex", "ComplexDouble")
+
+
+def m_positive_add_complex_constant(case, v):
+    """KF-C34-01: PositiveVisitor::bvisit(Add) ignores a non-real constant term: is_positive(x + I, x > 0) is true"""
+    dt = v.detail or {}
+    d = dt.get("dump")
+    return dt.get("query") == "is_positive" and dt.get("answer") == "T" and bool(d) and d[0] == "Add" and _nonreal_number(d[1])
+
+
+def _exact_zero(node, assign):
+    try:
+        xenv, _ = ar.split_env(assign)
+        _, qv = ar.reduce(node, xenv)
+        return qv is not None and qv.is_zero()
+    except ar.Undefined:
+        return False
+
+
+def m_real_mul_zero_factor(case, v):
+    """KF-C34-02: RealVisitor calls a product with exactly one non-real factor non-real although a real factor may
+    vanish (is_real(I*x, x real) is false; pinned by test_test_visitors.cpp).  Matches an is_real = F answer refuted at an
+    assignment where a factor of a product in the tree is exactly zero."""
+    dt = v.detail or {}
+    if dt.get("query") != "is_real" or dt.get("answer") != "F" or not dt.get("dump"):
+        return False
+    for n in _walk(dt["dump"]):
+        if n[0] == "Mul" and any(_exact_zero(b, dt["assign"]) for b, e in n[2]):
+            return True
+        if n[0] == "Add" and any(_nonreal_number(c) and _exact_zero(t, dt["assign"]) for t, c in n[2]):
+            return True
+    return False
+
+
+def m_real_add_two_nonreal(case, v):
+    """KF-C34-03: RealVisitor::bvisit(Add) answers false as soon as two or more terms are non-real (their imaginary
+    parts may cancel): is_real(I*x - I*y) with x, y real"""
+    dt = v.detail or {}
+    if dt.get("query") != "is_real" or dt.get("answer") != "F" or not dt.get("dump"):
+        return False
+    for n in _walk(dt["dump"]):
+        if n[0] == "Add":
+            k = (1 if _nonreal_number(n[1]) else 0)
+            for t, c in n[2]:
+                if _nonreal_number(c) or (t[0] == "Mul" and _nonreal_number(t[1])) or any(
+                        m[0] == "Add" and (_nonreal_number(m[1]) or any(_nonreal_number(c2) for _, c2 in m[2])) for m in _walk(t)):
+                    k += 1
+            if k >= 2:
+                return True
+    return False
 
 
 class C34(Check):
@@ -177,8 +236,8 @@ class C34(Check):
         stmts.append(["is_polynomial", R(0)])
         stmts.append(["id", R(0)])
         res = self.run(stmts)
-        if is_exc(res[-1]):
-            self.skip("assert_seen" if res[-1].get("exc") == "VerifAssertFailure" else "declined:expr")
+        if is_exc(res[0]) or is_exc(res[-1]):
+            self.skip("assert_seen" if is_exc(res[0], "VerifAssertFailure") else "declined:expr")
             return
         dump = B(res[-1])
         if ar.dump_has(dump, ("Infty", "NaN")):
@@ -294,7 +353,8 @@ class C34(Check):
         return None
 
 
-C34.matchers = {}
+C34.matchers = {"positive_add_complex_constant": m_positive_add_complex_constant,
+                "real_mul_zero_factor": m_real_mul_zero_factor, "real_add_two_nonreal": m_real_add_two_nonreal}
 
 if __name__ == "__main__":
     sys.exit(engine.main(C34))
